@@ -45,12 +45,11 @@ theorem split_meta (m : Meta) (k : Nat) (s : String) (hwf : m.wfB = true)
 example : mSplit 0 ⟨[.one "M", .one "K"], some [.n 4, .n 5], 7, [.U, .C], true⟩ =
     some ⟨[.one "M.1", .one "M.0", .one "K"], some [.n 4, .n 4, .n 5], 7, [.U, .U, .C], true⟩ := by decide
 
-/-- **swizzle**, what holds today: the identity order (a deep copy) and, for a real re-ordering,
-    tensors whose formats are all "C" and that are not mutable.  Rank ids, authoritative shape
-    (the `swiz_len` prefix re-arranged, the common suffix kept) and default are always right. -/
-theorem swizzle_meta_partial (m : Meta) (order : List RId) (hwf : m.wfB = true)
-    (hlen : order.length = m.ids.length)
-    (h : order = m.ids ∨ ((∀ f ∈ m.fmts, f = Fmt.C) ∧ m.mutable = false)) :
+/-- **swizzle**: the requested order; the authoritative shape with the `swiz_len` prefix re-arranged
+    and the common suffix kept equals the shape permuted like the ids; default and mutability kept;
+    every rank keeps its own format (full since /repo ba838e8). -/
+theorem swizzle_meta (m : Meta) (order : List RId) (hwf : m.wfB = true)
+    (hlen : order.length = m.ids.length) :
     mSwizzle order m = sSwizzle order m := by
   obtain ⟨hl, hs, hn⟩ := (metaWfB_iff m).1 hwf
   unfold mSwizzle sSwizzle
@@ -66,54 +65,34 @@ theorem swizzle_meta_partial (m : Meta) (order : List RId) (hwf : m.wfB = true)
         | some sh => simp only [Option.map_some, Option.some.injEq]
                      exact (map_lookD_self default ids sh hn (hs sh rfl)).symm
       · exact (map_lookD_self Fmt.C ids fmts hn hl).symm
-  · rcases h with h | ⟨hC, hm⟩
-    · exact absurd h.symm he
-    · simp only [he, if_false, Meta.mk.injEq, true_and]
-      refine ⟨?_, ?_, hm.symm⟩
-      · cases hsh : m.shape with
-        | none => rfl
-        | some sh =>
-          simp only [Option.map_some, Option.some.injEq]
-          have hd := swizLen_drop m.ids order hlen
-          have h2 := map_drop_lookD (default : Sx) m.ids sh hn (hs sh hsh) (swizLen m.ids order)
-          rw [← h2, ← hd, ← List.map_append, List.take_append_drop]
-      · apply List.map_congr_left
-        intro r _
-        exact (lookD_all Fmt.C m.ids m.fmts r hC).symm
+  · simp only [he, if_false, Meta.mk.injEq, true_and, and_true]
+    cases hsh : m.shape with
+    | none => rfl
+    | some sh =>
+      simp only [Option.map_some, Option.some.injEq]
+      have hd := swizLen_drop m.ids order hlen
+      have h2 := map_drop_lookD (default : Sx) m.ids sh hn (hs sh hsh) (swizLen m.ids order)
+      rw [← h2, ← hd, ← List.map_append, List.take_append_drop]
 
-example : mSwizzle [.one "K", .one "M"] ⟨[.one "M", .one "K"], some [.n 4, .n 5], 7, [.C, .C], false⟩ =
-    ⟨[.one "K", .one "M"], some [.n 5, .n 4], 7, [.C, .C], false⟩ := by decide
+example : mSwizzle [.one "K", .one "M"] ⟨[.one "M", .one "K"], some [.n 4, .n 5], 7, [.U, .C], true⟩ =
+    ⟨[.one "K", .one "M"], some [.n 5, .n 4], 7, [.C, .U], true⟩ := by decide
+example : mSwizzle [.one "K", .one "M", .one "N"] ⟨[.one "M", .one "K", .one "N"], some [.n 4, .n 5, .n 6], 0, [.U, .C, .U], false⟩ =
+    ⟨[.one "K", .one "M", .one "N"], some [.n 5, .n 4, .n 6], 0, [.C, .U, .U], false⟩ := by decide
 
-/-- … and the full statement is false for today's code: a re-ordering forgets formats and the
-    mutability hint (`Tensor.fromFiber` builds fresh ranks, tensor.py:1474-1488) — DESIGN §7 #10. -/
-theorem swizzle_meta_defect :
-    ∃ (m : Meta) (order : List RId), m.wfB = true ∧ order.length = m.ids.length ∧
-      (mSwizzle order m).ids = (sSwizzle order m).ids ∧ (mSwizzle order m).shape = (sSwizzle order m).shape ∧
-      (mSwizzle order m).fmts ≠ (sSwizzle order m).fmts ∧ (mSwizzle order m).mutable ≠ (sSwizzle order m).mutable :=
-  ⟨⟨[.one "M", .one "K"], some [.n 4, .n 5], 7, [.U, .C], true⟩, [.one "K", .one "M"], by decide⟩
-
-/-- **swap**, what holds today: ids exchanged, default and mutability kept, every rank keeps its
-    own format (looked up by id); the shape only when the operand's was not authoritative. -/
-theorem swap_meta_partial (m : Meta) (k : Nat) (eb : Bool) (hwf : m.wfB = true) (hshape : m.shape = none) :
-    mSwap k eb none m = sSwap k m := by
+/-- **swap**: ids exchanged, the authoritative shape with the two entries exchanged (full since /repo
+    38ce55b), default and mutability kept, every rank keeps its own format (looked up by id). -/
+theorem swap_meta (m : Meta) (k : Nat) (hwf : m.wfB = true) : mSwap k m = sSwap k m := by
   obtain ⟨hl, _, hn⟩ := (metaWfB_iff m).1 hwf
   unfold mSwap sSwap
   by_cases hk : k + 1 < m.ids.length
-  · simp only [hk, if_true, Option.some.injEq, Meta.mk.injEq, true_and, and_true, hshape, Option.map_none]
-    refine ⟨by cases eb <;> rfl, ?_⟩
+  · simp only [hk, if_true, Option.some.injEq, Meta.mk.injEq, true_and, and_true]
     rw [map_swapAt]
     unfold Meta.getFmt
     rw [map_lookD_self Fmt.C m.ids m.fmts hn hl]
   · simp [hk]
 
-example : mSwap 0 false none ⟨[.one "M", .one "K"], none, 7, [.U, .C], true⟩ =
-    some ⟨[.one "K", .one "M"], none, 7, [.C, .U], true⟩ := by decide
-
-/-- … the authoritative shape is dropped ("TBD: Create shape", tensor.py:1545-1547) — DESIGN §7 #10 -/
-theorem swap_meta_defect :
-    ∃ (m : Meta), m.wfB = true ∧ (mSwap 0 false none m).map (·.shape) ≠ (sSwap 0 m).map (·.shape) ∧
-      (mSwap 0 false none m).map (·.fmts) = (sSwap 0 m).map (·.fmts) :=
-  ⟨⟨[.one "M", .one "K"], some [.n 4, .n 5], 7, [.U, .C], true⟩, by decide⟩
+example : mSwap 0 ⟨[.one "M", .one "K"], some [.n 4, .n 5], 7, [.U, .C], true⟩ =
+    some ⟨[.one "K", .one "M"], some [.n 5, .n 4], 7, [.C, .U], true⟩ := by decide
 
 /-- **flatten / merge**: the merged id list, the shape entry the coordinate style defines, default
     and mutability kept; surviving ranks keep their format (looked up by id), the merged rank is "C". -/
@@ -138,13 +117,12 @@ example : mFlatten .tuple 0 1 ⟨[.one "M", .one "K", .one "N"], some [.n 4, .n 
     some ⟨[.many ["M", "K"], .one "N"], some [.cons (.n 4) (.cons (.n 5) .nil), .n 6], 7, [.C, .U], true⟩ := by
   decide
 
-/-- **unflatten**, what holds today: for a tensor with leaf default 0 whose shape is authoritative,
-    the inverse re-arrangement of ids and shape, mutability kept, surviving ranks keep their format
-    and the `levels + 1` new ranks are "C". -/
-theorem unflatten_meta_partial (m : Meta) (k l : Nat) (s : List Sx) (ids' : List RId) (hwf : m.wfB = true)
-    (hshape : m.shape = some s) (hd : m.dflt = 0) (hids : unflIds (l + 1) k m.ids = some ids')
+/-- the formats `unflattenRanks` installs (looked up by id, "C" for ids the operand does not have)
+    are the positional ones: survivors keep theirs, the `levels + 1` new ranks are "C" -/
+theorem C14.unflatten_fmts (m : Meta) (k l : Nat) (ids' : List RId) (hwf : m.wfB = true)
+    (hids : unflIds (l + 1) k m.ids = some ids')
     (hnew : ∀ r ∈ (ids'.drop k).take (l + 2), r ∉ m.ids) :
-    mUnflatten k (l + 1) s m = sUnflatten k (l + 1) m := by
+    ids'.map m.fmtOrC = m.fmts.take k ++ List.replicate (l + 1 + 1) Fmt.C ++ m.fmts.drop (k + 1) := by
   obtain ⟨hl, _, hn⟩ := (metaWfB_iff m).1 hwf
   obtain ⟨news, hnl, he⟩ := unflIds_form l k m.ids ids' hids
   have hklt : k < m.ids.length := by
@@ -158,41 +136,59 @@ theorem unflatten_meta_partial (m : Meta) (k l : Nat) (s : List Sx) (ids' : List
     rw [hlen, hnl] at this
     rw [he]; exact this
   rw [hnews] at hnew
-  have hf : ids'.map m.fmtOrC = m.fmts.take k ++ List.replicate (l + 1 + 1) Fmt.C ++ m.fmts.drop (k + 1) := by
-    rw [he]
-    simp only [List.map_append]
-    have hA : ∀ r ∈ m.ids, m.fmtOrC r = lookD m.ids m.fmts r Fmt.C := by
-      intro r hr; simp [Meta.fmtOrC, hr, Meta.getFmt]
-    rw [List.map_congr_left (fun r hr => hA r (List.mem_of_mem_take hr)),
-        List.map_congr_left (fun r hr => hA r (List.mem_of_mem_drop hr)),
-        map_take_lookD Fmt.C m.ids m.fmts hn hl, map_drop_lookD Fmt.C m.ids m.fmts hn hl]
-    congr 2
-    rw [← hnl]
-    apply List.ext_getElem
-    · simp
-    · intro i h1 h2
-      have hi : i < news.length := by simpa using h1
-      simp only [List.getElem_map, List.getElem_replicate]
-      have : news[i] ∉ m.ids := hnew _ (List.getElem_mem hi)
-      simp [Meta.fmtOrC, this]
+  rw [he]
+  simp only [List.map_append]
+  have hA : ∀ r ∈ m.ids, m.fmtOrC r = lookD m.ids m.fmts r Fmt.C := by
+    intro r hr; simp [Meta.fmtOrC, hr, Meta.getFmt]
+  rw [List.map_congr_left (fun r hr => hA r (List.mem_of_mem_take hr)),
+      List.map_congr_left (fun r hr => hA r (List.mem_of_mem_drop hr)),
+      map_take_lookD Fmt.C m.ids m.fmts hn hl, map_drop_lookD Fmt.C m.ids m.fmts hn hl]
+  congr 2
+  rw [← hnl]
+  apply List.ext_getElem
+  · simp
+  · intro i h1 h2
+    have hi : i < news.length := by simpa using h1
+    simp only [List.getElem_map, List.getElem_replicate]
+    have : news[i] ∉ m.ids := hnew _ (List.getElem_mem hi)
+    simp [Meta.fmtOrC, this]
+
+/-- **unflatten** of a tensor whose shape is authoritative: the inverse re-arrangement of ids and
+    shape, leaf default (full since /repo e4536c9) and mutability kept, surviving ranks keep their
+    format and the `levels + 1` new ranks are "C". -/
+theorem unflatten_meta (m : Meta) (k l : Nat) (s : List Sx) (ids' : List RId) (hwf : m.wfB = true)
+    (hshape : m.shape = some s) (hids : unflIds (l + 1) k m.ids = some ids')
+    (hnew : ∀ r ∈ (ids'.drop k).take (l + 2), r ∉ m.ids) :
+    mUnflatten k (l + 1) s m = sUnflatten k (l + 1) m := by
+  have hf := C14.unflatten_fmts m k l ids' hwf hids hnew
   unfold mUnflatten sUnflatten
   rw [hids, hshape]
   cases hu : unflShape (l + 1) k s with
   | none => simp [hu]
-  | some s' => simp [hu, hf, hd]
+  | some s' => simp [hu, hf]
 
 example : mUnflatten 0 1 [.cons (.n 4) (.cons (.n 5) .nil), .n 6]
-    ⟨[.many ["M", "K"], .one "N"], some [.cons (.n 4) (.cons (.n 5) .nil), .n 6], 0, [.C, .U], true⟩ =
-    some ⟨[.one "M", .one "K", .one "N"], some [.n 4, .n 5, .n 6], 0, [.C, .C, .U], true⟩ := by decide
+    ⟨[.many ["M", "K"], .one "N"], some [.cons (.n 4) (.cons (.n 5) .nil), .n 6], 7, [.C, .U], true⟩ =
+    some ⟨[.one "M", .one "K", .one "N"], some [.n 4, .n 5, .n 6], 7, [.C, .C, .U], true⟩ := by decide
 
-/-- … the leaf default is not carried (no `setDefault` in `unflattenRanks`) — DESIGN §7 #10 -/
-theorem unflatten_meta_defect :
-    ∃ (m : Meta) (s : List Sx), m.wfB = true ∧ m.shape = some s ∧
-      (mUnflatten 0 1 s m).map (·.dflt) ≠ (sUnflatten 0 1 m).map (·.dflt) ∧
-      (mUnflatten 0 1 s m).map (·.ids) = (sUnflatten 0 1 m).map (·.ids) ∧
-      (mUnflatten 0 1 s m).map (·.shape) = (sUnflatten 0 1 m).map (·.shape) :=
-  ⟨⟨[.many ["M", "K"], .one "N"], some [.cons (.n 4) (.cons (.n 5) .nil), .n 6], 7, [.C, .U], true⟩,
-   [.cons (.n 4) (.cons (.n 5) .nil), .n 6], by decide⟩
+/-- **unflatten** of a tensor whose shape is only estimated: ids, default, formats and mutability
+    as documented *provided the code gets through* `_unflattenRankIdsShape`, which indexes the
+    reported (estimated) shape `rep` as if its entry were a tuple; the result then presents that
+    estimate as its declared shape (the statement claims nothing about the shape here). -/
+theorem unflatten_meta_estimated_partial (m : Meta) (k l : Nat) (rep s' : List Sx) (ids' : List RId)
+    (hwf : m.wfB = true) (hshape : m.shape = none) (hids : unflIds (l + 1) k m.ids = some ids')
+    (hrep : unflShape (l + 1) k rep = some s')
+    (hnew : ∀ r ∈ (ids'.drop k).take (l + 2), r ∉ m.ids) :
+    (mUnflatten k (l + 1) rep m).map (fun x => { x with shape := none }) = sUnflatten k (l + 1) m := by
+  have hf := C14.unflatten_fmts m k l ids' hwf hids hnew
+  unfold mUnflatten sUnflatten
+  rw [hids, hshape, hrep]
+  simp [hf]
+
+example : (mUnflatten 0 1 [.cons (.n 1) (.cons (.n 3) .nil)] ⟨[.many ["M", "K"]], none, 7, [.U], false⟩).map
+    (fun x => { x with shape := none }) = some ⟨[.one "M", .one "K"], none, 7, [.C, .C], false⟩ := by decide
+/-- the excluded class: an empty flattened rank estimates its shape as the integer 0 -/
+example : mUnflatten 0 1 [.n 0] ⟨[.many ["M", "K"]], none, 0, [.C], false⟩ = none := by decide
 
 /-- **unflatten is the inverse of flatten on rank ids**: flattening `levels + 1` atomic ranks at
     depth `k` and unflattening `levels` times gives the id list back. -/
